@@ -182,8 +182,9 @@ Print Assumptions C06_timeoutdict_advance_settled.
 (* ---- 5. lifetime at SERVER level.  [l_asm lg i k] / [l_rend lg i k] = the time of the last USE of the assembly /
    stored rendering of key k on resource i, computed along the event history by [last1_step] / [last2_step]
    (Proofs/C06Lifetime.v).  What counts as a use:
-     assembly:  a block 0 of k; every continuation (NUM>0) of k that finds an assembly — appended (2.31 or handed to
-                the handler) or REJECTED with 4.00 / 4.08 (gap, overlap): the lookup refreshes the timeout first;
+     assembly:  a block 0 of k with M=1; every continuation (NUM>0) of k that finds an assembly and is appended with M=1 (2.31)
+                or REJECTED with 4.00 / 4.08 (gap, overlap): the lookup refreshes the timeout first; a block with M=0 that
+                completes the assembly hands it to the handler and REMOVES it (6759bee; the ghost forgets the key);
                 a continuation that finds nothing, or a request without Block1, is not a use;
      rendering: a block-0 / Block2-less request whose rendering is chunked (stored); a NUM>0 request that finds a
                 rendering (served, or answered 4.00 beyond the end); a rendering request answered whole EVICTS the
@@ -320,26 +321,26 @@ Theorem C06_spool_error_keeps_cache : forall T now s req rendering sp e,
 Proof. exact spool_error_keeps_cache. Qed.
 Print Assumptions C06_spool_error_keeps_cache.
 
-(* T of the model is the translated source constant; the M=1 length check is the library's is_valid_for_payload_size *)
+(* T of the model is the translated source constant; the length check of C06_block1_responses ([size_ok], M=1 and M=0) is the
+   translated BlockwiseTuple.is_valid_for_payload_size *)
 Theorem C06_T_is_source :
   QArith_base.Qeq (QArith_base.inject_Z MAX_TRANSMIT_WAIT_us)
       (QArith_base.Qmult (c03_constants.MAX_TRANSMIT_WAIT c03_constants.default_transport_tuning) (QArith_base.inject_Z 1000000)).
 Proof. exact T_is_source. Qed.
 Print Assumptions C06_T_is_source.
-Theorem C06_size_check_M1_is_source : forall b r, b_more b = true ->
+Theorem C06_size_check_is_source : forall b r,
   bt_is_valid_for_payload_size (b_num b) (b_more b) (b_szx b) (blen (m_payload r)) = Ok (size_ok b r).
-Proof. exact size_ok_M1_is_valid. Qed.
-Print Assumptions C06_size_check_M1_is_source.
+Proof. exact size_ok_is_valid. Qed.
+Print Assumptions C06_size_check_is_source.
 
-(* refuted (finding C06:final-block-oversize-accepted): "a continuation whose payload length contradicts its block size -> 4.00"
-   holds for M=1 only.  A FINAL block of 40 bytes with block size 16 is rejected by the library's own predicate but accepted by
-   _append_request_block: the handler sees 56 bytes *)
-Example C06_final_block_oversize_refuted :
+(* the scenario of the former finding C06:final-block-oversize-accepted (fixed by 8f63ed9): a FINAL block of 40 bytes with block size
+   16 is answered 4.00, the handler is not invoked, the assembly stays *)
+Example C06_final_block_oversize_rejected :
   let es := [Request 0 (put_req {| b_num := 0; b_more := true; b_szx := 0 |} (mk_body 0 16) 1) (rend 0);
              Request 0 (put_req {| b_num := 1; b_more := false; b_szx := 0 |} (mk_body 0 40) 2) (rend 0)] in
   bt_is_valid_for_payload_size 1 false 0 40 = Ok false /\
   match snd (run MAX_TRANSMIT_WAIT_us (server_init 1) es) with
-  | [ORequest [] r1 _ _; ORequest [c] r2 _ _] => p_code r1 = CONTINUE /\ p_code r2 = 69 /\ blen (m_payload c) = 56
+  | [ORequest [] r1 1 0; ORequest [] r2 1 0] => p_code r1 = CONTINUE /\ r2 = bad_request_resp txt_size_mismatch
   | _ => False
   end.
 Proof. vm_compute. repeat split. Qed.
@@ -353,17 +354,37 @@ Theorem C06_atomic_schedule_is_request : forall T st id req rendering, m_block1 
   o1 = SOBegin calls /\ o2 = SOFinish (Some res) (snd (rsizes s')) /\ s_res st2 = s' /\ s_now st2 = s_now st.
 Proof. exact atomic_schedule_is_request. Qed.
 Print Assumptions C06_atomic_schedule_is_request.
-(* ... but refuted under overlap (finding C06:overlap-older-rendering-served): request 1 starts rendering, request 2 of the same
-   key starts and returns, then request 1 returns and overwrites the stored rendering; block 1 is then a slice of the rendering
-   made for the EARLIER block-0 request *)
-Example C06_overlapping_renderings_refuted :
+(* ... and under overlap (3302d9e: only the builder started last for its key may store / evict) the stored rendering of a key is the one
+   returned by the handler of the LATEST begun rendering request of that key: invariant over every schedule history ... *)
+Theorem C06_schedule_inv : forall T es, Forall wf_sevent es ->
+  sinv (fst (srun_state T sstate_init sghost_init es)) (snd (srun_state T sstate_init sghost_init es)).
+Proof. intros T es F. exact (srun_state_inv T es sstate_init sghost_init F sinv_init). Qed.
+Print Assumptions C06_schedule_inv.
+(* ... so a later block, requested while no builder of its key is pending as the latest one, is answered 4.08 or is the exact slice of
+   the rendering [Rn] that the handler of request [i] returned, [i] being the latest begun rendering request of the key *)
+Theorem C06_schedule_later_block_latest : forall T st g req b2, sinv st g ->
+  m_block1 req = None -> m_block2 req = Some b2 -> b_num b2 <> 0 -> marker st (extract_block_key req) = None ->
+  match snd (sstep T st (SLater req)) with
+  | SOLater calls res _ =>
+    calls = [] /\
+    (res = incomplete_resp \/
+     exists i Rn, sg_fin g (extract_block_key req) = Some (i, Rn) /\ sg_latest g (extract_block_key req) = Some i /\
+       res = if b2_start (b_szx b2) (b_num b2) >=? blen (p_payload Rn) then bad_request_resp txt_out_of_bounds
+             else slice_resp Rn (b_num b2) (b_szx b2) (m_mps req))
+  | _ => False
+  end.
+Proof. exact schedule_later_block_lemma. Qed.
+Print Assumptions C06_schedule_later_block_latest.
+(* the scenario of the former finding C06:overlap-older-rendering-served: request 1 starts rendering, request 2 of the same key starts
+   and returns, then request 1 returns (answered from its own rendering, which is NOT stored); block 1 is a slice of rendering 2 *)
+Example C06_overlapping_renderings_latest :
   let q := get_req {| b_num := 0; b_more := false; b_szx := 0 |} in
   let es := [SBegin 1 (q 1); SBegin 2 (q 2); SFinish 2 (rend 2); SFinish 1 (rend 1);
              SLater (get_req {| b_num := 1; b_more := false; b_szx := 0 |} 3)] in
   match srun MAX_TRANSMIT_WAIT_us sstate_init es with
   | [SOBegin [_]; SOBegin [_]; SOFinish (Some r2) 1; SOFinish (Some r1) 1; SOLater [] r3 1] =>
       p_payload r2 = bslice (mk_body 2 100) 0 16 /\ p_payload r1 = bslice (mk_body 1 100) 0 16 /\
-      p_payload r3 = bslice (mk_body 1 100) 16 32 /\ p_payload r3 <> bslice (mk_body 2 100) 16 32
+      p_payload r3 = bslice (mk_body 2 100) 16 32 /\ p_payload r3 <> bslice (mk_body 1 100) 16 32
   | _ => False
   end.
 Proof. vm_compute. repeat split. discriminate. Qed.
@@ -400,7 +421,7 @@ Example C06_scenario :
              Advance (2 * MAX_TRANSMIT_WAIT_us);
              Request 0 (put_req {| b_num := 2; b_more := false; b_szx := 0 |} (mk_body 9 5) 5) (rend 0)] in
   match snd (run MAX_TRANSMIT_WAIT_us (server_init 1) es) with
-  | [ORequest [] r1 1 0; ORequest [] r2 1 0; ORequest [] r3 1 0; ORequest [c] r4 1 0; OAdvance [(0, 0)]; ORequest [] r6 0 0] =>
+  | [ORequest [] r1 1 0; ORequest [] r2 1 0; ORequest [] r3 1 0; ORequest [c] r4 0 0; OAdvance [(0, 0)]; ORequest [] r6 0 0] =>
       p_code r1 = CONTINUE /\ p_code r2 = REQUEST_ENTITY_INCOMPLETE /\ p_code r3 = BAD_REQUEST /\ p_code r4 = 69 /\
       m_payload c = mk_body 0 16 ++ mk_body 16 5 /\ m_id c = 4 /\ p_code r6 = REQUEST_ENTITY_INCOMPLETE
   | _ => False
